@@ -89,7 +89,33 @@ def src_values(s):
 
 ALL_TYPES = [("bit",), ("bool",)] + [(k, n) for k in VEC for n in range(1, 7)]
 
-FORMS_SIMPLE = ["next_op", "next_attr", "push_op", "push_attr", "value_op", "value_attr", "init", "varinit"]
+# declaration forms: every qualifier x every option that exists in synthesizable contexts (cohdl/_core/_type_qualifier.py
+# `_init_replacement` signatures: name, attributes, maybe_uninitialized, Signal also delayed_init; noreset is refused there),
+# the std re-exports and std.Value, declarations in a concurrent context and inside a helper function
+DECL_FORMS = {
+    # form: (context, statement template with {T} {e} {k})
+    "init": ("seq", "d{k} = Signal[{T}]({e})"),
+    "varinit": ("seq", "d{k} = Variable[{T}]({e})"),
+    "tempinit": ("seq", "d{k} = Temporary[{T}]({e})"),
+    "init_delayed": ("seq", "d{k} = Signal[{T}]({e}, delayed_init=True)"),
+    "init_named": ("seq", "d{k} = Signal[{T}]({e}, name='nm{k}')"),
+    "init_attr": ("seq", "d{k} = Signal[{T}]({e}, attributes={{}})"),
+    "init_maybe": ("seq", "d{k} = Signal[{T}]({e}, maybe_uninitialized=True)"),
+    "init_all": ("seq", "d{k} = Signal[{T}]({e}, name='nm{k}', attributes={{}}, delayed_init=True, maybe_uninitialized=True)"),
+    "varinit_named": ("seq", "d{k} = Variable[{T}]({e}, name='nm{k}', attributes={{}}, maybe_uninitialized=True)"),
+    "tempinit_named": ("seq", "d{k} = Temporary[{T}]({e}, name='nm{k}')"),
+    "std_signal": ("seq", "d{k} = std.Signal[{T}]({e})"),
+    "std_variable": ("seq", "d{k} = std.Variable[{T}]({e})"),
+    "std_temporary": ("seq", "d{k} = std.Temporary[{T}]({e})"),
+    "std_value": ("seq", "d{k} = std.Value[{T}]({e})"),
+    "init_conc": ("conc", "d{k} = Signal[{T}]({e})"),
+    "init_conc_delayed": ("conc", "d{k} = Signal[{T}]({e}, delayed_init=True)"),
+    "tempinit_conc": ("conc", "d{k} = Temporary[{T}]({e})"),
+    "init_fn": ("fn", "Signal[{T}](v)"),
+    "init_fn_delayed": ("fn", "Signal[{T}](v, delayed_init=True)"),
+    "varinit_fn": ("fn", "Variable[{T}](v)"),
+}
+FORMS_SIMPLE = ["next_op", "next_attr", "push_op", "push_attr", "value_op", "value_attr", "copy_next"] + list(DECL_FORMS)
 FORMS_SUB = ["slice_bv", "slice_uns", "slice_sgn", "elem_bv", "elem_uns", "elem_sgn"]
 FORMS_VIEW = [f"view_{v}_{r}" for v in VEC for r in VEC if v != r]  # view kind, root kind
 FORMS_PORT = ["port_in", "port_out"]
@@ -197,10 +223,15 @@ def build_design(items, name="E"):
             seq += [f"v{k} = Variable[{ty_py(t)}]()", f"v{k} @= {e}", f"self.{o} <<= v{k}"]
         elif f == "value_attr":
             seq += [f"v{k} = Variable[{ty_py(t)}]()", f"v{k}.value = {e}", f"self.{o} <<= v{k}"]
-        elif f == "init":
-            seq += [f"s{k} = Signal[{ty_py(t)}]({e})", f"self.{o} <<= s{k}"]
-        elif f == "varinit":
-            seq += [f"v{k} = Variable[{ty_py(t)}]({e})", f"self.{o} <<= v{k}"]
+        elif f == "copy_next":
+            conc.append(f"self.{o} <<= {e}.copy()" if it.srcs[0][0] == "rt" else f"self.{o} <<= {e}")
+        elif f in DECL_FORMS:
+            where, tmpl = DECL_FORMS[f]
+            if where == "fn":
+                pre_funcs.append(f"def mk{k}(v):\n    return {tmpl.format(T=ty_py(t), k=k)}\n")
+                seq += [f"d{k} = mk{k}({e})", f"self.{o} <<= d{k}"]
+            else:
+                (seq if where == "seq" else conc).extend([tmpl.format(T=ty_py(t), e=e, k=k), f"self.{o} <<= d{k}"])
         elif f.startswith("slice_"):
             w = t[1]
             conc += [f"self.{o}[{w}:1] <<= {e}", f"self.{o}[0] <<= False", f"self.{o}[{w + 1}] <<= False"]
@@ -293,6 +324,9 @@ def simulate(task):
     per_item_vals = [[src_values(s) for s in it.srcs] for it in items]
     nsteps = max([1] + [max(len(v) for v in vs) for vs in per_item_vals])
     nopt = max(len(it.srcs) for it in items)
+    # a Signal declared with delayed_init in a clocked context receives its value by a signal assignment: the copy to
+    # the output port sees it one clock later
+    nclk = 2 if any(it.form in ("init_delayed", "init_all", "init_fn_delayed") for it in items) else 1
     out = [[] for _ in items]
     for p in pnames:
         if p == "clk" or p in ("c", "c2", "cb", "cs"):
@@ -323,7 +357,7 @@ def simulate(task):
                     d.initialise()
                     first = False
                 d.settle()
-                d.clock("clk")
+                d.clock("clk", cycles=nclk)
             except VhdlTypeError as e:
                 return [("err", type(e).__name__, str(e)[:300])] * len(items)
             except VhdlRuntimeError as e:
@@ -349,9 +383,9 @@ def simulate(task):
 
 
 def lean_form(form):
-    if form in ("next_op", "next_attr", "push_op", "push_attr", "value_op", "value_attr"):
+    if form in ("next_op", "next_attr", "push_op", "push_attr", "value_op", "value_attr", "copy_next"):
         return "assign"
-    if form in ("init", "varinit"):
+    if form in DECL_FORMS:
         return "init"
     if form.startswith(("slice_", "elem_")):
         return "sub_" + form.split("_")[1]
@@ -458,6 +492,8 @@ def single_items(ctx):
             for s in literal_sources(t):
                 if t[0] == "int" and s[0] in ("null", "full", "str"):
                     continue
+                if f == "std_value" and (t[0] == "int" or (t[0] == "bool" and s[0] == "str")):
+                    continue  # std.Value[int](literal) / std.Value[bool]("..") call int() / str.__bool__ in the tracer: over-rejections
                 items.append(Item(f, t, [s]))
     for f in FORMS_SUB:
         kind = f.split("_")[1]
@@ -533,7 +569,7 @@ def width_rel(t, s):
 
 
 def form_family(f):
-    if f in ("init", "varinit"):
+    if f in DECL_FORMS:
         return "declaration"
     if f.startswith("port"):
         return f
@@ -562,7 +598,8 @@ def cls_of(it):
 
 
 def item_size(it):
-    return (ty_width(it.target) + sum(ty_width(s[1]) if s[0] == "rt" else 1 for s in it.srcs), it.sig())
+    return (ty_width(it.target) + sum(ty_width(s[1]) if s[0] == "rt" else 1 for s in it.srcs),
+            (len(DECL_FORMS[it.form][1]) + (40 if DECL_FORMS[it.form][0] == "fn" else 0)) if it.form in DECL_FORMS else 0, it.sig())
 
 
 def chunks(xs, n):
@@ -593,7 +630,14 @@ def run(ctx: Ctx):
         full_forms = {"next_op", "init", "port_in", "port_out"}
         keep = []
         for i, (it, m) in enumerate(zip(singles, model)):
-            if (m["ok"] and m["ok0"]) or it.form in full_forms or m["spec"] == "reject" and ctx.rng.random() < 0.35 \
+            s0 = it.srcs[0]
+            if it.form in DECL_FORMS and it.form not in full_forms:
+                # the declaration options: every accepted case, every equal-width vector pair the property rejects
+                # (the Signed<->Unsigned reinterpretations), a seeded sample of the other rejected cases
+                eq_vec = s0[0] == "rt" and s0[1][0] in VEC and it.target[0] in VEC and s0[1][1] == it.target[1]
+                if (m["ok"] and m["ok0"]) or (m["spec"] == "reject" and eq_vec) or ctx.rng.random() < 0.12:
+                    keep.append(i)
+            elif (m["ok"] and m["ok0"]) or it.form in full_forms or m["spec"] == "reject" and ctx.rng.random() < 0.35 \
                     or m["spec"] != "reject" and ctx.rng.random() < 0.2:
                 keep.append(i)
         singles = [singles[i] for i in keep]
